@@ -191,6 +191,41 @@ def norm_cases(rng, tier):
     return cases, exp
 
 
+def cli_cases(rng, tier):
+    """command-line argument sequences through the real `_handle_commands` of both clients: `PATH` get, `PATH=VALUE`
+    set, `PATH=` clear, `PATH?` list, `PATH!` dump; VALUE is canonical JSON that may itself contain `/`, `=`, `?`, `!`.
+    Oracle: each argument's PATH part resolved against the directory of the last absolute PATH."""
+    cases, exp = [], {}
+    paths = ["/a/b", "c", "d/e", "", "x", "/", "/a", "b/c", "/a/b/", "é", "/x/y/z", "two", "/deep/er/leaf"]
+    values = ['1', '"x/y"', '{"k":"1/2"}', '[1,2]', 'true', 'null', '"a=b"', '"/abs/olute"', '"q?"', '"bang!"', '-0.5', '""']
+    for i in range(300 if tier == "quick" else 5000):
+        args, want, cur = [], [], ""
+        for _ in range(rng.randrange(1, 8)):
+            p = rng.choice(paths)
+            kind = rng.choice("GGSSCLD")
+            if p.startswith("/") or p == "":
+                cur = p.rsplit("/", 1)[0] if "/" in p else ""
+                full = p
+            else:
+                full = cur + "/" + p
+            if kind == "G":
+                args.append(p); want.append("G" + cp(full))
+            elif kind == "S":
+                v = rng.choice(values)
+                args.append(p + "=" + v); want.append("S" + cp(full) + "=" + cp(v))
+            elif kind == "C":
+                args.append(p + "="); want.append("C" + cp(full))
+            elif kind == "L":
+                args.append(p + "?"); want.append("L" + cp(full))
+            else:
+                args.append(p + "!"); want.append("D" + cp(full))
+        for variant in ("clia", "clis"):
+            cid = f"k{len(cases)}"
+            cases.append(f"py {cid} {variant} " + " ".join(cp(a) for a in args))
+            exp[cid] = (" ".join(want), "cli")
+    return cases, exp
+
+
 def run(rep, rng, tier):
     pl = proof_layer("C17", thorough=(tier == "thorough"))
     for f in pl["failures"]:
@@ -199,6 +234,9 @@ def run(rep, rng, tier):
     c2, e2 = norm_cases(rng, tier)
     cases += c2
     exp.update(e2)
+    c3, e3 = cli_cases(rng, tier)
+    cases += c3
+    exp.update(e3)
 
     def oracle(case, out):
         cid = case.split(" ", 2)[1]
@@ -225,7 +263,8 @@ def run(rep, rng, tier):
         "rule": "both client variants × (all interleavings, capped at 60, of the well-formed response sequences of 1-3 concurrent "
                 "get/set/list/clear/dump requests; random interleavings of up to 6 requests mixed with duplicates, foreign "
                 "topics, unknown/missing correlation data, missing code, late messages with odd codes) + sequences of "
-                "absolute/relative CLI paths; distinct by exact event list",
+                "absolute/relative CLI paths; command-line argument sequences (get / set with JSON values containing / = ? ! / "
+                "clear / list / dump) through the real _handle_commands of both clients; distinct by exact event list",
         "samples": [cases[0], cases[len(cases) // 2], cases[-1]],
         "traces_validated_against_impl": (r["n"] - r["diffs"]) if r else 0,
         "model_disagreements": r["diffs"] if r else None,
